@@ -77,6 +77,35 @@ theorem grunHist_ginv {sc : Schema} {g : GSt K} (h : GInv sc g) (txs : List (Lis
   | nil => exact h
   | cons tx txs ih => exact ih (gcommitTx_ginv h tx)
 
+/-! ### naming and the extended flag are irrelevant to the behaviour -/
+
+/-- no operation looks at how the set symbols are named, keyed or prefixed, nor at the extended
+    flag: two schemas with the same declared collections behave identically, operation by operation
+    and history by history (only the rendered bucket paths differ) -/
+theorem gstep_naming_irrelevant (sc : Schema) (e : Side → Bool) (n : Nat → Side → Naming) (g : GSt K) (op : GOp K) :
+    gstep { colls := sc.colls, ext := e, naming := n } g op = gstep sc g op := rfl
+
+theorem grunOps_naming_irrelevant (sc : Schema) (e : Side → Bool) (n : Nat → Side → Naming) (g : GSt K)
+    (ops : List (GOp K)) : grunOps { colls := sc.colls, ext := e, naming := n } g ops = grunOps sc g ops := by
+  induction ops generalizing g with
+  | nil => rfl
+  | cons op ops ih =>
+    simp only [grunOps, gstep_naming_irrelevant]
+    cases (gstep sc g op).err with
+    | some _ => rfl
+    | none => exact ih _
+
+theorem naming_irrelevant (sc : Schema) (e : Side → Bool) (n : Nat → Side → Naming) (g : GSt K)
+    (h : List (List (GOp K))) :
+    grunHist { colls := sc.colls, ext := e, naming := n } g h = grunHist sc g h := by
+  induction h generalizing g with
+  | nil => rfl
+  | cons tx txs ih =>
+    simp only [grunHist, List.foldl_cons] at ih ⊢
+    have : gcommitTx { colls := sc.colls, ext := e, naming := n } g tx = gcommitTx sc g tx := by
+      simp only [gcommitTx, grunOps_naming_irrelevant]
+    rw [this]; exact ih _
+
 /-! ### reachability in the base models -/
 
 /-- the slot is the state of a committed base-model history; inside the vocabulary (`v`) that
